@@ -289,7 +289,7 @@ class Interp:
             env[t.id] = v
         elif isinstance(t, ast.Attribute):
             base = self.ev(t.value, env)
-            if isinstance(base, Obj):
+            if isinstance(base, (Obj, Closure)):
                 setattr(base, t.attr, v)
             else:
                 raise AnalysisError(f"abstract interpreter: attribute store on {type(base).__name__} in `{unparse(t)}`")
@@ -527,6 +527,10 @@ class Interp:
                 return getattr(base, attr)
             except AttributeError:
                 raise Raised("AttributeError", (attr,))
+        if isinstance(base, Closure):
+            if attr in base.__dict__ and attr not in ("interp", "node", "env"):
+                return base.__dict__[attr]
+            raise Raised("AttributeError", (attr,))
         if isinstance(base, Raised):
             if attr == "args":
                 return base.args_
@@ -550,7 +554,7 @@ class Interp:
             if nm == "issubclass":
                 return self.issubclass_(args[0], args[1])
             if nm == "hasattr":
-                if isinstance(args[0], Obj):
+                if isinstance(args[0], (Obj, Closure)):
                     return args[1] in args[0].__dict__
                 return hasattr(args[0], args[1]) if isinstance(args[0], SAFE_METHOD_OWNERS) else False
             if nm == "getattr":
